@@ -1289,6 +1289,12 @@ _W = 'chainables/courier_worker.py'
 _O = 'chainables/orchestrate.py'
 _U = 'utils/courier_utils.py'
 VARIANTS = [
+    OK('stage-merge-through-a-local', 'chainables/orchestrate.py',
+       "      agg_state = agg_fn.merge_states(agg_states)\n", "      merged_state = agg_fn.merge_states(agg_states)\n      agg_state = merged_state\n"),
+    OK('next-batch-queue-through-a-local', 'chainables/courier_server.py',
+       "      result = self._generator.get_batch(batch_size, block=True)", "      prefetched = self._generator\n      result = prefetched.get_batch(batch_size, block=True)"),
+    OK('timed-out-attempts-cancelled-through-a-local', 'chainables/courier_worker.py',
+       "        for task in timeout_tasks:\n          if (state := task.state) is not None:\n            state.cancel()\n", "        for task in timeout_tasks:\n          state = task.state\n          if state is not None:\n            state.cancel()\n"),
     B('timed-out-attempts-cancelled-only-when-giving-up', 'chainables/courier_worker.py',
       "        # Preemptively cancel task from the timeout workers.\n        for task in timeout_tasks:\n          if (state := task.state) is not None:\n            state.cancel()\n", "", 'R-C06-28',
       extra=(('chainables/courier_worker.py', "          if timeout_cnt > retry_threshold:\n            break", "          if timeout_cnt > retry_threshold:\n            for task in timeout_tasks:\n              if (state := task.state) is not None:\n                state.cancel()\n            break"),)),
